@@ -100,6 +100,11 @@ def main():
     notes = f"{out}/NOTES.md"
     if os.path.exists(notes): shutil.copy(notes, f"{d}/NOTES.md")
     meta["breaks"] = pid
+    # annotations made by hand survive a re-evaluation
+    if os.path.exists(f"{d}/meta.json"):
+        prev = json.load(open(f"{d}/meta.json"))
+        for k in ("needs", "first_run_verdict", "caught_after_strengthening", "rebased"):
+            if k in prev: meta[k] = prev[k]
     json.dump(meta, open(f"{d}/meta.json", "w"), indent=1)
     print(json.dumps({k: meta[k] for k in ("property", "n", "confirmed", "demo_passes_on_unchanged_tree", "suite_passes_with_change", "demo_fails_with_change")}))
     for c, r in results.items():
